@@ -236,6 +236,8 @@ pub fn campaign<E: Engine>(
             if fresh && rep.samples.len() < 3 {
                 rep.samples.push(e.render(&case));
             }
+        } else if !cr.sub_hashes.is_empty() && cr.failure.is_none() && rep.samples.len() < 3 {
+            rep.samples.push(e.render(&case));
         }
         if let Some(f) = cr.failure {
             if let Some(what) = known.open.get(&f.kind) {
